@@ -86,6 +86,12 @@ fn drop_thread(spec: &RunSpec, t: usize) -> RunSpec {
             c.thread -= 1;
         }
     }
+    s.jumps.retain(|c| c.thread != t);
+    for c in s.jumps.iter_mut() {
+        if c.thread > t {
+            c.thread -= 1;
+        }
+    }
     if t == 0 {
         s.setup_ops = 0;
     }
@@ -120,6 +126,12 @@ fn drop_op(spec: &RunSpec, t: usize, i: usize) -> RunSpec {
     s.scripts[t].remove(i);
     s.crashes.retain(|c| !(c.thread == t && c.op == i));
     for c in s.crashes.iter_mut() {
+        if c.thread == t && c.op > i {
+            c.op -= 1;
+        }
+    }
+    s.jumps.retain(|c| !(c.thread == t && c.op == i));
+    for c in s.jumps.iter_mut() {
         if c.thread == t && c.op > i {
             c.op -= 1;
         }
@@ -259,6 +271,20 @@ pub fn minimise_and_write(
             c -= 1;
             let mut cand = spec.clone();
             cand.crashes.remove(c);
+            cand.decisions = None;
+            trials += 1;
+            if let Some(r) = fails(sock, &prefix, &cand, &class, method) {
+                spec = cand;
+                last = r;
+                progress = true;
+            }
+        }
+        // clock jumps
+        let mut c = spec.jumps.len();
+        while c > 0 && trials < budget {
+            c -= 1;
+            let mut cand = spec.clone();
+            cand.jumps.remove(c);
             cand.decisions = None;
             trials += 1;
             if let Some(r) = fails(sock, &prefix, &cand, &class, method) {
